@@ -221,6 +221,19 @@ def judge(W, run, trace):
             if is_err(out) or out.get("nums") != exp or not out.get("same") or not out.get("distinct"):
                 v(i, "iter", "wrong_order_or_members", {"nums": exp, "same": True, "distinct": True}, out, role)
             continue
+        if k == "pickle_whole":
+            tbl, ref, q = ev[1], ev[2], ev[3]
+            key = [ref[0], ref[1], q]
+            if not m.valid(tbl, key):
+                continue
+            role = "public" if tbl == "public" else "private"
+            if is_err(out):
+                v(i, "pickle_whole:" + ev[4], "exception:" + out[1], "same object", out, role)
+                continue
+            check_report(i, nid, tbl, key, out, "pickle_whole:" + ev[4])
+            if not out.get("same"):
+                v(i, "pickle_whole:" + ev[4], "new_object", {"same": True}, out, role)
+            continue
         if k == "define_elements":
             tbl, prefill = ev[1], ev[2]
             if tbl not in m.tables or (prefill is not None and prefill not in m.tables):
